@@ -76,6 +76,9 @@ def run(tier='quick'):
                           '%s: no DELETE trigger on Playlist removes the child lists' % en)
 
     c08.chain_trigger_siblings(prog, chk, P2)
+    # the splice statements match rows by identifiers of one kind (entity with entity, list with list)
+    from .. import domains
+    domains.apply_rule(prog, eff, chk, P2, gens=(2,), trigger_tables=('playlist', 'playlistentity'), library=False)
     # ---- P3 ------------------------------------------------------------------------------
     walkers = [(V2 + '(anon)::sort_ids', 'PLAYLIST_NO_NEXT_LIST_ID'),
                (V2 + 'playlist_entity_table::get_for_list', 'PLAYLIST_ENTITY_NO_NEXT_ENTITY_ID')]
